@@ -119,3 +119,270 @@ theorem parseIntRadix_digits (w : Text) (hw : DigitStr w) (n : Nat) (hp : parseD
     · simp [hp]
 
 end SteelVerif.C12
+
+namespace SteelVerif.C12
+
+theorem radixPrefix_noHash (c : Char) (cs : Text) (h : c ≠ '#') : radixPrefix (c :: cs) = (c :: cs, 10) := by
+  unfold radixPrefix
+  split <;> first | rfl | (rename_i heq; injection heq with a _; exact absurd a h)
+
+theorem specialReal_digit (c : Char) (cs : Text) (hc : isDigit c = true) : specialReal (c :: cs) = none := by
+  have h1 : c ≠ '-' := by intro h; subst h; simp [isDigit] at hc
+  have h2 : c ≠ '+' := by intro h; subst h; simp [isDigit] at hc
+  simp [specialReal, h1, h2]
+
+theorem specialReal_neg_digit (c : Char) (cs : Text) (hc : isDigit c = true) :
+    specialReal ('-' :: c :: cs) = none := by
+  have h1 : c ≠ 'i' := by intro h; subst h; simp [isDigit] at hc
+  have h2 : c ≠ 'n' := by intro h; subst h; simp [isDigit] at hc
+  simp [specialReal, h1, h2]
+
+theorem signIdxs_append_digits (w rest : Text) (hw : DigitStr w) : ∀ i acc,
+    signIdxs i acc (w ++ rest) = signIdxs (i + w.length) acc rest := by
+  induction w with
+  | nil => intro i acc; simp
+  | cons c cs ih =>
+    intro i acc
+    have hc := hw c (by simp)
+    have h1 : (c == '+' || c == '-') = false := by digit_cases hc
+    have h2 : (c == 'e' || c == 'E') = false := by digit_cases hc
+    rw [List.cons_append, signIdxs.eq_def]
+    simp only [h1, h2, Bool.false_eq_true, if_false]
+    rw [ih (fun x hx => hw x (by simp [hx]))]
+    have : i + 1 + cs.length = i + (c :: cs).length := by simp only [List.length_cons]; omega
+    rw [this]
+
+theorem scanReal_append_digits (radix : Nat) (w rest : Text) (hw : DigitStr w) : ∀ i st,
+    scanReal radix i st (w ++ rest) = scanReal radix (i + w.length) st rest := by
+  induction w with
+  | nil => intro i st; simp
+  | cons c cs ih =>
+    intro i st
+    have hc := hw c (by simp)
+    have h1 : (c == 'e' || c == 'E') = false := by digit_cases hc
+    have h2 : (c == '/') = false := by digit_cases hc
+    have h3 : (c == '.') = false := by digit_cases hc
+    simp only [List.cons_append, scanReal, h1, h2, h3, Bool.false_and, Bool.false_eq_true, if_false]
+    rw [ih (fun x hx => hw x (by simp [hx]))]
+    have : i + 1 + cs.length = i + (c :: cs).length := by simp only [List.length_cons]; omega
+    rw [this]
+
+theorem scanReal_minus (radix : Nat) (w : Text) (i : Nat) (st : RealScan) :
+    scanReal radix i st ('-' :: w) = scanReal radix (i + 1) st w := by
+  simp [scanReal]
+
+theorem scanReal_slash (radix : Nat) (w : Text) (i : Nat) :
+    scanReal radix i {} ('/' :: w) = scanReal radix (i + 1) { frac := some i } w := by
+  simp [scanReal]
+
+theorem signIdxs_minus (w : Text) (i : Nat) :
+    signIdxs i [] ('-' :: w) = signIdxs (i + 1) [i] w := by
+  rw [signIdxs.eq_def]; simp
+
+theorem signIdxs_slash (w : Text) (i : Nat) (acc : List Nat) :
+    signIdxs i acc ('/' :: w) = signIdxs (i + 1) acc w := by
+  rw [signIdxs.eq_def]; simp
+
+/-- the last character of a nonempty digit string (after any prefix) is not `i` -/
+theorem getLast_append_digits (pre w : Text) (hw : DigitStr w) (hne : w ≠ []) :
+    (pre ++ w).getLast? ≠ some 'i' := by
+  intro h
+  rw [List.getLast?_append] at h
+  cases hl : w.getLast? with
+  | none => exact hne (List.getLast?_eq_none_iff.mp hl)
+  | some x =>
+    rw [hl] at h
+    simp at h
+    subst h
+    exact digitStr_getLast_ne_i w hw hl
+
+theorem parseIntRadix_neg_digits (w : Text) (n : Nat) (hp : parseDigits 10 0 w = some n)
+    (hne : w ≠ []) : parseIntRadix 10 ('-' :: w) = some (- Int.ofNat n) := by
+  unfold parseIntRadix
+  split
+  · rename_i heq; cases heq
+  · rename_i heq; injection heq with a b; simp at a
+  · rename_i cs heq
+    injection heq with a b
+    subst b
+    cases w with
+    | nil => exact absurd rfl hne
+    | cons c cs => simp [hp]
+  · rename_i h1 h2 h3; exact absurd rfl (h3 w)
+
+/-- shape of a written integer -/
+theorem writeInt_shape (i : Int) :
+    ∃ w n, DigitStr w ∧ w ≠ [] ∧ parseDigits 10 0 w = some n ∧
+      ((writeInt i = w ∧ i = Int.ofNat n) ∨ (writeInt i = '-' :: w ∧ i = - Int.ofNat n)) := by
+  cases i with
+  | ofNat n =>
+    exact ⟨decDigits n, n, decDigits_digitStr n, natDigits_ne_nil _ _ _, parse_decDigits n, Or.inl ⟨rfl, rfl⟩⟩
+  | negSucc n =>
+    refine ⟨decDigits (n + 1), n + 1, decDigits_digitStr _, natDigits_ne_nil _ _ _, parse_decDigits _, Or.inr ⟨rfl, ?_⟩⟩
+    rfl
+
+theorem parseIntRadix_writeInt (i : Int) : parseIntRadix 10 (writeInt i) = some i := by
+  obtain ⟨w, n, hw, hne, hp, h | h⟩ := writeInt_shape i
+  · rw [h.1, h.2]; exact parseIntRadix_digits w hw n hp hne
+  · rw [h.1, h.2]; exact parseIntRadix_neg_digits w n hp hne
+
+theorem writeInt_numChars (i : Int) : ∀ c ∈ writeInt i, isNumChar c = true := by
+  obtain ⟨w, n, hw, _, _, h | h⟩ := writeInt_shape i
+  · rw [h.1]; intro c hc; exact digit_isNumChar (hw c hc)
+  · rw [h.1]; intro c hc
+    rcases List.mem_cons.mp hc with h | h
+    · subst h; decide
+    · exact digit_isNumChar (hw c h)
+
+theorem contains_at_append (a b : Text) : (a ++ b).contains '@' = (a.contains '@' || b.contains '@') := by
+  induction a with
+  | nil => simp
+  | cons c cs ih => simp [List.contains_cons, ih, Bool.or_assoc]
+
+/-- facts about the text of a written integer (optionally followed by `/digits`) -/
+structure NumText (s : Text) : Prop where
+  first : ∃ c tl, s = c :: tl ∧ c ≠ '#'
+  noAt : s.contains '@' = false
+  split : splitComplex s = some [.real s]
+  special : specialReal s = none
+
+theorem tryParseNumber_of (s : Text) (h : NumText s) (r : RealLit)
+    (hreal : parseRealPlain 10 s = some r) (hz : zeroDen r = false) :
+    tryParseNumber s = some (.ok (.real r)) := by
+  obtain ⟨c, tl, hs, hc⟩ := h.first
+  have hp : parseReal 10 s = some r := by
+    unfold parseReal; rw [h.special]; exact hreal
+  unfold tryParseNumber parseNumber
+  have : radixPrefix s = (s, 10) := by rw [hs]; exact radixPrefix_noHash c tl hc
+  rw [this]
+  unfold parseNumberBody
+  simp only [h.noAt, Bool.false_eq_true, if_false, h.split, hp]
+  simp [hz]
+
+/-- `sign? digits rest'` where rest' is empty or `/digits` -/
+theorem numText_int (i : Int) : NumText (writeInt i) := by
+  obtain ⟨w, n, hw, hne, hp, h | h⟩ := writeInt_shape i
+  · rw [h.1]
+    cases w with
+    | nil => exact absurd rfl hne
+    | cons c cs =>
+      have hc := hw c (by simp)
+      refine ⟨⟨c, cs, rfl, ?_⟩, digitStr_contains_at _ hw, ?_, specialReal_digit c cs hc⟩
+      · intro h; subst h; simp [isDigit] at hc
+      · unfold splitComplex
+        rw [signIdxs_digitStr _ hw]
+        simp only [List.reverse_nil]
+        unfold classifyPart
+        split
+        · rename_i h; exact absurd h (digitStr_getLast_ne_i _ hw)
+        · rfl
+  · rw [h.1]
+    cases w with
+    | nil => exact absurd rfl hne
+    | cons c cs =>
+      have hc := hw c (by simp)
+      refine ⟨⟨'-', c :: cs, rfl, by decide⟩, ?_, ?_, specialReal_neg_digit c cs hc⟩
+      · have := digitStr_contains_at _ hw
+        simp at this ⊢
+        exact this
+      · unfold splitComplex
+        rw [signIdxs_minus, signIdxs_digitStr _ hw]
+        simp only [List.reverse_cons, List.reverse_nil, List.nil_append]
+        unfold classifyPart
+        split
+        · rename_i h; exact absurd h (getLast_append_digits ['-'] (c :: cs) hw (by simp))
+        · rfl
+
+theorem tryParseNumber_writeInt (i : Int) :
+    tryParseNumber (writeInt i) = some (.ok (.real (.int i))) := by
+  apply tryParseNumber_of _ (numText_int i)
+  · unfold parseRealPlain
+    have hs : scanReal 10 0 {} (writeInt i) = {} := by
+      obtain ⟨w, n, hw, hne, hp, h | h⟩ := writeInt_shape i
+      · rw [h.1]; exact scanReal_digitStr 10 _ hw _ _
+      · rw [h.1, scanReal_minus]; exact scanReal_digitStr 10 _ hw _ _
+    rw [hs]
+    simp [parseIntRadix_writeInt]
+  · rfl
+
+theorem numText_rat (n : Int) (d : Nat) : NumText (writeInt n ++ '/' :: decDigits d) := by
+  have hwd := decDigits_digitStr d
+  have hdne : decDigits d ≠ [] := natDigits_ne_nil _ _ _
+  have hlast : ∀ pre : Text, (pre ++ '/' :: decDigits d).getLast? ≠ some 'i' := by
+    intro pre
+    have := getLast_append_digits (pre ++ ['/']) (decDigits d) hwd hdne
+    simpa using this
+  have hat2 : ('/' :: decDigits d).contains '@' = false := by
+    have := digitStr_contains_at _ hwd
+    simp at this ⊢
+    exact this
+  obtain ⟨w, m, hw, hne, hp, h | h⟩ := writeInt_shape n
+  · rw [h.1]
+    cases w with
+    | nil => exact absurd rfl hne
+    | cons c cs =>
+      have hc := hw c (by simp)
+      refine ⟨⟨c, cs ++ '/' :: decDigits d, rfl, ?_⟩, ?_, ?_, specialReal_digit c _ hc⟩
+      · intro h; subst h; simp [isDigit] at hc
+      · rw [contains_at_append, digitStr_contains_at _ hw, hat2]; rfl
+      · unfold splitComplex
+        rw [signIdxs_append_digits _ _ hw, signIdxs_slash, signIdxs_digitStr _ hwd]
+        simp only [List.reverse_nil]
+        unfold classifyPart
+        split
+        · rename_i h; exact absurd h (hlast _)
+        · rfl
+  · rw [h.1]
+    cases w with
+    | nil => exact absurd rfl hne
+    | cons c cs =>
+      have hc := hw c (by simp)
+      refine ⟨⟨'-', (c :: cs) ++ '/' :: decDigits d, rfl, by decide⟩, ?_, ?_, specialReal_neg_digit c _ hc⟩
+      · rw [contains_at_append, hat2]
+        have := digitStr_contains_at _ hw
+        simp at this ⊢
+        exact this
+      · unfold splitComplex
+        rw [List.cons_append, signIdxs_minus, signIdxs_append_digits _ _ hw, signIdxs_slash,
+          signIdxs_digitStr _ hwd]
+        simp only [List.reverse_cons, List.reverse_nil, List.nil_append]
+        unfold classifyPart
+        split
+        · rename_i h; exact absurd h (hlast ('-' :: c :: cs))
+        · rfl
+
+theorem scanReal_rat (n : Int) (d : Nat) :
+    scanReal 10 0 {} (writeInt n ++ '/' :: decDigits d) = { frac := some (writeInt n).length } := by
+  have hwd := decDigits_digitStr d
+  obtain ⟨w, m, hw, hne, hp, h | h⟩ := writeInt_shape n
+  · rw [h.1, scanReal_append_digits _ _ _ hw, scanReal_slash, scanReal_digitStr _ _ hwd]
+    simp
+  · rw [h.1, List.cons_append, scanReal_minus, scanReal_append_digits _ _ _ hw, scanReal_slash,
+      scanReal_digitStr _ _ hwd]
+    simp
+    omega
+
+/-- the rational literal `n/d` -/
+theorem tryParseNumber_rat (n : Int) (d : Nat) (hd : d ≠ 0) :
+    tryParseNumber (writeInt n ++ '/' :: decDigits d) = some (.ok (.real (.rat n (Int.ofNat d)))) := by
+  have hwd := decDigits_digitStr d
+  have hdne : decDigits d ≠ [] := natDigits_ne_nil _ _ _
+  apply tryParseNumber_of _ (numText_rat n d)
+  · unfold parseRealPlain
+    rw [scanReal_rat]
+    have ht : (writeInt n ++ '/' :: decDigits d).take (writeInt n).length = writeInt n := by simp
+    have hdr : (writeInt n ++ '/' :: decDigits d).drop ((writeInt n).length + 1) = decDigits d := by
+      rw [← List.drop_drop]; simp
+    simp only [Bool.false_eq_true, if_false, Bool.or_self]
+    rw [ht, hdr, parseIntRadix_writeInt, parseIntRadix_digits _ hwd d (parse_decDigits d) hdne]
+  · simp [zeroDen]; exact hd
+
+theorem rat_numChars (n : Int) (d : Nat) : ∀ c ∈ writeInt n ++ '/' :: decDigits d, isNumChar c = true := by
+  intro c hc
+  rcases List.mem_append.mp hc with h | h
+  · exact writeInt_numChars n c h
+  · rcases List.mem_cons.mp h with h | h
+    · subst h; decide
+    · exact digit_isNumChar (decDigits_isDigit d c h)
+
+end SteelVerif.C12
